@@ -17,7 +17,7 @@ PREF_VALUES = ["", "true", "false", "True", "yes", "0", "-1", "100", "1e9", "999
 NOT_XML = ["", " ", "hello", "<", ">", "<math", "<math>", "</math>", "<math></mi>", "<math><mi>x</math>", "<math><mi>x</mi></math><math/>", "\u0000", "<?xml version='1.0'?>", "<!DOCTYPE math>",
            "<math>&nosuchentity;</math>", "<math>&#xD800;</math>", "<math>&#0;</math>", "<math>&amp</math>", "<math attr></math>", "<math a='1' a='2'/>", "<m:math xmlns:m='http://www.w3.org/1998/Math/MathML'><m:mi>x</m:mi></m:math>",
            "<math><![CDATA[<mi>x</mi>]]></math>", "<math><!-- c --></math>", "<math><?pi x?></math>", "﻿<math><mi>x</mi></math>", "<math xmlns='urn:x'><mi>x</mi></math>", "{\"json\": 1}", "<math>" + "<mrow>" * 30]
-NOT_MATHML = ["<html><body><p>x</p></body></html>", "<svg><circle r='1'/></svg>", "<mi>x</mi>", "<mrow><mi>x</mi></mrow>", "<math><p>x</p></math>", "<math><mi><mi>x</mi></mi></math>", "<math>text</math>",
+NOT_MATHML = ["<math><mrow><mo>|</mo><mo>)</mo></mrow></math>", "<math><mrow><mo>(</mo><mo>|</mo><mo>)</mo></mrow></math>", "<math><mfenced separators='|'><mrow></mrow><mphantom><mo>&lt;</mo></mphantom></mfenced></math>", "<html><body><p>x</p></body></html>", "<svg><circle r='1'/></svg>", "<mi>x</mi>", "<mrow><mi>x</mi></mrow>", "<math><p>x</p></math>", "<math><mi><mi>x</mi></mi></math>", "<math>text</math>",
               "<math><mrow>text<mi>x</mi></mrow></math>", "<math><mfrac><mi>x</mi></mfrac></math>", "<math><mfrac/></math>", "<math><msqrt/></math>", "<math><msub><mi>x</mi></msub></math>",
               "<math><msubsup><mi>x</mi><mi>y</mi></msubsup></math>", "<math><mroot><mi>x</mi></mroot></math>", "<math><munderover><mi>x</mi></munderover></math>", "<math><mtable><mi>x</mi></mtable></math>",
               "<math><mtr><mtd><mi>x</mi></mtd></mtr></math>", "<math><mtd><mi>x</mi></mtd></math>", "<math><mtable><mtr><mi>x</mi></mtr></mtable></math>", "<math><mtable/></math>", "<math><mtable><mtr/></mtable></math>",
@@ -162,7 +162,7 @@ def run(ctx):
         recovery(calls + pre, "no rules directory, no expression")      # ... then the rules directory is set, as a fresh session must
     # stream 2: not XML / not MathML / odd but valid, each followed by every kind of call
     pool = NOT_XML + NOT_MATHML
-    for x in (pool if ctx.tier == "thorough" else rng.sample(pool, 45)):
+    for x in pool:          # the whole pool in both tiers: it is cheap, and sampling it once hid a known panic
         recovery(pre + [{"op": "set_mathml", "xml": rng.choice(VALID)}] * (rng.random() < 0.5) + [{"op": "set_mathml", "xml": x}] + after_calls(rng), "malformed input")
     # stream 3: generated trees (degenerate children everywhere) and their mutations
     for _ in range(120 if ctx.tier == "quick" else 6000):
